@@ -34,6 +34,7 @@ fn inst(
         mode,
         body: Arc::new(body),
         k: 0,
+        m3l_stale: None,
         pk_quick: Vec::new(),
         pk_thorough: Vec::new(),
         p_with_k: None,
@@ -377,6 +378,8 @@ fn more_family<
             // quick tier: only on the fallback-only path (the cheapest of the three, and the one
             // in which every load is a helping transaction)
             x.thorough_only = path != "nofast";
+            // `check_cooldown` must not act on a stale count of writers (seeded C11-2)
+            x.m3l_stale = Some(1);
             out.push(x);
         }
         if mode == Fresh {
